@@ -489,7 +489,9 @@ def harmless : Field → NumClass → Bool
 
 
 /-- several inputs at once: `argparse` looks at every option before `main` validates anything, so a usage error of any
-input wins; otherwise the first diagnostic of `main`'s own validation ends the run; otherwise everything is accepted -/
+input wins; otherwise the first diagnostic of `main`'s own validation ends the run; otherwise everything is accepted.
+(For inputs that are all evaluated: with `--near-field` and no `--option` only the near field is computed and the far-field
+angles are not looked at — then an input that is never evaluated cannot produce its diagnostic.) -/
 def composeOutcome (os : List Outcome) : Outcome :=
   if os.any (· == .usage) then .usage
   else match os.find? (· != .report) with
